@@ -3,6 +3,7 @@
 from __future__ import annotations
 
 import ast
+import os
 import random
 
 from pyvc import term as tm
@@ -32,9 +33,61 @@ EXPLANATION = ("body VC of AbstractPart.structure for every enzyme geometry and 
                "lifts the pattern relation to `accepted iff generic accepts and the overhangs match the signature`")
 
 
+FIRST_CALL = r'''
+import sys, json
+sys.path.insert(0, %(verif)r)
+from pyvc import native
+kits = native.kits(%(repo)r)
+import importlib
+from Bio.Seq import Seq
+from moclo.record import CircularRecord
+cls = getattr(importlib.import_module(%(mod)r), %(cname)r)
+def ask():
+    try:
+        return type(cls.characterize(CircularRecord(Seq(%(text)r), id="r"))).__name__
+    except Exception as e:
+        return "raised " + type(e).__name__
+first = ask()
+valid = cls(CircularRecord(Seq(%(text)r), id="r")).is_valid()
+later = ask()
+print(json.dumps(dict(first=first, later=later, valid=valid)))
+'''
+
+
 def obligations(ctx):
     from props._shared import typing_state_census
-    return list(ctx.verify(FUNCTIONS) + ctx.part(literal) + ctx.part(lemmas)) + ctx.part(lambda c_: [typing_state_census(c_, 'C05')], 'typing-state census')
+    return list(ctx.verify(FUNCTIONS) + ctx.part(literal) + ctx.part(lemmas)) + ctx.part(lambda c_: [typing_state_census(c_, 'C05')], 'typing-state census') + ctx.part(placeholder_census, 'placeholder census')
+
+
+def placeholder_census(ctx):
+    """discharges what the `isabstract` / `characterize` contracts take as a constant of a class: a class that declares its
+    cutter and its signature is concrete.  `moclo._utils.isabstract` calls abstract every class one of whose attributes *is*
+    `NotImplemented`; so, over the whole typing layer (core, kits), the only class-level names bound to `NotImplemented` are
+    the two a concrete type declares -- `cutter` and `signature` -- and nothing stores `NotImplemented` into a class later"""
+    bad = []
+    for rel, mi in sorted(ctx.repo.modules.items()):
+        if not (rel.startswith("moclo/moclo/core/") or "/moclo/kits/" in rel or rel == "moclo/moclo/_utils.py"):
+            continue
+        for cls_ in [n for n in ast.walk(mi.tree) if isinstance(n, ast.ClassDef)]:
+            for st_ in cls_.body:
+                tgts, val = [], None
+                if isinstance(st_, ast.Assign):
+                    tgts, val = st_.targets, st_.value
+                elif isinstance(st_, ast.AnnAssign) and st_.value is not None:
+                    tgts, val = [st_.target], st_.value
+                if isinstance(val, ast.Name) and val.id == "NotImplemented":
+                    for t_ in tgts:
+                        if isinstance(t_, ast.Name) and t_.id not in ("cutter", "signature"):
+                            bad.append("%s::%s.%s = NotImplemented (line %d)" % (rel, cls_.name, t_.id, st_.lineno))
+        for n in ast.walk(mi.tree):
+            if isinstance(n, ast.Call) and isinstance(n.func, ast.Name) and n.func.id == "setattr" and len(n.args) == 3 and \
+                    isinstance(n.args[2], ast.Name) and n.args[2].id == "NotImplemented":
+                bad.append("%s: setattr(..., NotImplemented) (line %d)" % (rel, n.lineno))
+            if isinstance(n, ast.Assign) and isinstance(n.value, ast.Name) and n.value.id == "NotImplemented" and any(
+                    isinstance(t_, ast.Attribute) for t_ in n.targets):
+                bad.append("%s: attribute store of NotImplemented (line %d)" % (rel, n.lineno))
+    return [Obligation("C05.F1 census: the only class-level placeholders `NotImplemented` of the typing layer are `cutter` and `signature`",
+                       [], tm.B(not bad), kind="F", text="other placeholders: %s" % bad, meta=dict(function="census", clause="F1", detail=bad))]
 
 
 def iupac_match(sig, text):
@@ -299,6 +352,33 @@ def bounded(ctx):
                 viol.append(dict(name="characterize_late_subclass", what="after earlier characterize() calls on the base class, a record of a part type "
                                  "defined since then gives %s; the accepting candidates are %r" % (got, [k_.__name__ for k_ in accepting]),
                                  case=dict(record=s, history="Base.characterize(...) x%d, then class KLate(Base, Entry) defined" % len(recs))))
+    # the first call of a process: characterize asked of a concrete kit type (and of its kit base) before anything else has
+    # been typed -- the answer must be the one given later in the same process
+    import subprocess, sys as _sys, json as _json
+    firsts = []
+    seen_mod = set()
+    for cls in sig_classes:
+        mod = cls.__module__
+        if mod in seen_mod:
+            continue
+        seen_mod.add(mod)
+        firsts.append((mod, cls.__name__, be.class_records(cls, rng, count=1)[0]))
+    for (mod, cname, text) in firsts:
+        evals += 1
+        code = FIRST_CALL % dict(verif=os.path.dirname(os.path.dirname(os.path.abspath(__file__))), repo=ctx.repo_root, mod=mod, cname=cname, text=text)
+        try:
+            r = subprocess.run([_sys.executable, "-c", code], stdout=subprocess.PIPE, stderr=subprocess.PIPE, universal_newlines=True, timeout=300,
+                               env=dict(os.environ, PYTHONDONTWRITEBYTECODE="1"))
+            got = _json.loads(r.stdout.strip().splitlines()[-1]) if r.returncode == 0 and r.stdout.strip() else dict(error=(r.stderr or "")[-300:])
+        except Exception as ex:
+            got = dict(error=repr(ex))
+        distinct.add(("first-call", cname))
+        if "error" in got:
+            viol.append(dict(name="first_call_%s" % cname, what="fresh interpreter, %s.%s: the probe failed: %s" % (mod, cname, got["error"]), case=dict(cls=cname, record=text)))
+        elif got["first"] != got["later"] or got["valid"] is not True or got["first"] != cname:
+            viol.append(dict(name="first_call_%s" % cname, what="fresh interpreter: %s.characterize(member) as the very first call gives %s, after typing the record "
+                             "with the class it gives %s (the class accepts the record: %r)" % (cname, got["first"], got["later"], got["valid"]),
+                             case=dict(cls=cname, record=text)))
     samples.append(dict(classes=len(sig_classes), example=sig_classes[0].__name__, signature=list(sig_classes[0].signature)))
     uniq = {}
     for v_ in viol:
